@@ -6,7 +6,7 @@
      entry m i j: element (i,j) of the flat row-major dense matrix returned by convert *)
 From Coq Require Import List Arith Bool ZArith QArith Qcanon.
 Local Open Scope nat_scope.
-From OV Require Import Base.Panic Base.Arith Model.Vector Model.Matrix Model.Tridiag Inst.QcInst Proofs.Tridiag Proofs.TridiagSolve Proofs.TridiagDet.
+From OV Require Import Base.Panic Base.Arith Model.Vector Model.Matrix Model.Tridiag Inst.QcInst Inst.FloatInst Proofs.Tridiag Proofs.TridiagSolve Proofs.TridiagDet Proofs.TridiagTotal.
 Import ListNotations.
 
 (* ---- views: index, convert, transpose (every n >= 1, every entry value, any arithmetic) ---- *)
@@ -163,6 +163,24 @@ Check thomas_exact_or_refuses_Qc : forall (t : tridiag AQ) (r : list AQ),
      (forall k, k < tn t -> exists p, thomas_pivot t k = Ok p /\ p <> zero)) \/
   (tsolve t r = Panic Guard /\ exists k, k < tn t /\ thomas_pivot t k = Ok zero).
 Print Assumptions thomas_exact_or_refuses_Qc.
+
+(* ---- shape of solve over ANY arithmetic whose division answers for a divisor that is not == 0 (exact fields, f64,
+   Complex<f64>): Ok with n components, or the zero-pivot refusal; never a bounds failure, underflow or division panic ---- *)
+Theorem thomas_shape_any_arith : forall (A : Arith),
+  (forall x y : A, eqb y zero = false -> exists z, div x y = Ok z) ->
+  forall (t : tridiag A) (r : list A), wfT t -> 1 <= tn t -> length r = tn t ->
+  (exists u, tsolve t r = Ok u /\ length u = tn t) \/ tsolve t r = Panic Guard.
+Proof. intros A Hdiv t r. exact (thomas_shape_lemma Hdiv t r). Qed.
+Check thomas_shape_any_arith : forall (A : Arith),
+  (forall x y : A, eqb y zero = false -> exists z, div x y = Ok z) ->
+  forall (t : tridiag A) (r : list A), wfT t -> 1 <= tn t -> length r = tn t ->
+  (exists u, tsolve t r = Ok u /\ length u = tn t) \/ tsolve t r = Panic Guard.
+Print Assumptions thomas_shape_any_arith.
+(* the hypothesis holds of the two float instances the correspondence check runs (their division never panics) *)
+Example thomas_shape_any_arith_nonvacuous :
+  (forall x y : AF, eqb y zero = false -> exists z, div x y = Ok z) /\
+  (forall x y : ACF, eqb y zero = false -> exists z, div x y = Ok z).
+Proof. split; intros x y _; eexists; reflexivity. Qed.
 
 (* ---- T / s and T /= s over a field: entrywise division, or the arithmetic's own division-by-zero panic ---- *)
 Theorem tridiag_div_scalar : forall (A : Arith) (FL : FieldLaws A) (t : tridiag A) (s : A), wfT t ->
